@@ -27,6 +27,7 @@ func main() {
 		NQuick:    120,
 		NThorough: 2500,
 		Corpus:    corpus,
+		VM:        true,
 		Isolate:   true,
 		Extra:     faultEnumeration,
 		KF: func(uses map[string]int, src string) []string {
